@@ -54,7 +54,9 @@ VerAtoms == { a \in [kind : {"ver"}, var : {"python_version", "python_full_versi
                 /\ (a.op = "~=" => Len(a.rel) >= 2)
                 /\ (a.op \in {"==*", "!=*"} => Len(a.rel) <= 2)
                 /\ (a.rev => a.op \notin {"~=", "==*", "!=*"})               \* both operand orders: comparison operators
-                /\ (a.var = "python_version" => Len(a.rel) <= 2) }
+                \* python_version operands: X, X.Y and the X.Y.0 spelling the library itself produces when it
+                \* re-renders a merged specifier (`python_version != "3.8.0"`)
+                /\ (a.var = "python_version" => Len(a.rel) <= 2 \/ (a.rel[3] = 0 /\ a.op \notin {"~=", "==*", "!=*"})) }
 ListAtoms == { [kind |-> "list", var |-> "python_version", op |-> o, items |-> <<x, y>>] :
                  o \in {"in", "not in"}, x \in ListItems, y \in ListItems } \cup
              { [kind |-> "list", var |-> "python_version", op |-> o, items |-> <<x>>] : o \in {"in", "not in"}, x \in ListItems }
@@ -107,10 +109,12 @@ ListViewIsSetOfSeries(a, v) ==
 \* (== / != get a wildcard, > X.Y becomes >= X.(Y+1), <= X.Y becomes < X.(Y+1); a one-segment
 \*  operand "X" compares like "X.0" - fix commit 1f6b13e).
 OneSegmentPadsToTwo == TRUE
+TrailingZeroIsStripped == TRUE      \* "X.Y.0" is normalised like "X.Y" (fix commit); FALSE: taken as a full version
 NormalizeView(a) ==
-  IF a.kind # "ver" \/ Len(a.rel) > 2 \/ a.op \in {"==*", "!=*"} THEN SpecifierView(a)
+  LET short == IF TrailingZeroIsStripped /\ Len(a.rel) = 3 /\ a.rel[3] = 0 THEN SubSeq(a.rel, 1, 2) ELSE a.rel IN
+  IF a.kind # "ver" \/ Len(short) > 2 \/ a.op \in {"==*", "!=*"} THEN SpecifierView(a)
   ELSE LET op  == StoredOp(a)
-           rel == IF Len(a.rel) = 1 /\ OneSegmentPadsToTwo THEN Append(a.rel, 0) ELSE a.rel
+           rel == IF Len(short) = 1 /\ OneSegmentPadsToTwo THEN Append(short, 0) ELSE short
        IN CASE op \in {"==", "!="} -> Translate(Clause(op \o "*", Final(rel)))
             [] op = ">"  -> Translate(Clause(">=", Final(Bump(rel))))
             [] op = "<=" -> Translate(Clause("<", Final(Bump(rel))))
